@@ -587,7 +587,7 @@ pub fn run(rep: &Report) {
     );
     rep.assume("one older release (3.0.0), 4 KiB pages only (3.0.0 cannot be told another page size)");
     let n = match rep.tier {
-        Tier::Quick => 4_000u64,
+        Tier::Quick => 10_000u64,
         Tier::Thorough => 100_000u64,
     };
     run_cases(
